@@ -6,6 +6,9 @@ def run(pid, tier):
         if pid in ("C01", "C09", "C10", "C13", "C20"):
             import dhcp_lease
             return dhcp_lease.check(pid, tier)
+        if pid in ("C02", "C11"):
+            import dhcp_policy
+            return dhcp_policy.check(pid, tier)
         if pid == "C12":
             import dhcp_wire
             return dhcp_wire.check(pid, tier)
